@@ -107,6 +107,18 @@ VirtShape(x) ==
   /\ NC >= 4 => (IsMixin(3) /\ Len(Cls(4).bases) = 2 /\ Cls(4).bases[1].c = 2 /\ Cls(4).bases[2].c = 3 /\ IsChain(4))
   /\ done => (NC >= 3 /\ (Cls(3).bases = <<>> => NC = 4))
 
+\* ---- virt2: the chain 1 <- 2 <- 3 of virt where the ROOT may also declare a virtual destructor, before or after vf (the
+\* order in which the parser learns that a class is polymorphic must not decide whether an override is marked virtual), and
+\* the middle class may declare nothing
+Virt2Members == <<{VfMem(r, "published") : r \in {"virt", "meth", "over"}} \cup {Mem("vdtor", "published")}, {}>>
+IsChain2(c) == \A i \in 1..NM(c) : Mbr(c, i).nm = "vf" \/ (c = 1 /\ Mbr(c, i).k = "vdtor")
+Virt2Shape(x) ==
+  /\ NC >= 1 => (Cls(1).bases = <<>> /\ IsChain2(1))
+  /\ NC >= 2 => (Len(Cls(2).bases) = 1 /\ Cls(2).bases[1].c = 1 /\ IsChain2(2))
+  /\ NC >= 3 => (Len(Cls(3).bases) = 1 /\ Cls(3).bases[1].c = 2 /\ IsChain2(3))
+  /\ \A c \in 1..NC : Cardinality({i \in 1..NM(c) : Mbr(c, i).nm = "vf"}) <= 1
+  /\ done => NC = 3
+
 \* ---- copy: a nested class that has the simple name of a namespace-scope class, with constructors taking the one or the other
 CopyHeads == {<<"class", TRUE, FALSE>>}
 CopyMembers == <<{Mem("meth", "published")}, {Mem("ctorof", "published"), Mem("cctor", "published"), Mem("ctorof", "same"), Mem("cctor", "same")}>>
